@@ -365,3 +365,83 @@ Proof.
   unfold limit_extra_ok, install_limit. destruct extra as [k|]; intros H J; [|left; reflexivity].
   apply Nat.leb_le in H. cbn [option_map]. right. exists (jobs + k). split; [reflexivity | lia].
 Qed.
+
+(* ====================================================================== *)
+(* 4. wave 3                                                                *)
+(* ====================================================================== *)
+Lemma file_after_fresh {A} flags (old new : list A) : opens_fresh flags = true -> file_after flags old new = new.
+Proof. intro H. unfold file_after. rewrite H. reflexivity. Qed.
+
+Lemma file_after_keeps_tail : exists (old new : list nat) flags, opens_fresh flags = false /\ file_after flags old new <> new.
+Proof. exists [1; 2; 3], [9], ["O_CREATE"; "O_RDWR"]. split; [reflexivity|]. vm_compute. discriminate. Qed.
+
+Lemma upd_length {A} (v : A) : forall l i, List.length (upd i v l) = List.length l.
+Proof. induction l as [|x l IH]; intros [|i]; simpl; auto. Qed.
+
+Lemma upd_nth_same {A} (v : A) : forall l i, i < List.length l -> nth_error (upd i v l) i = Some v.
+Proof. induction l as [|x l IH]; intros [|i] H; simpl in *; try lia; [reflexivity | apply IH; lia]. Qed.
+
+Lemma upd_nth_other {A} (v : A) : forall l i j, i <> j -> nth_error (upd i v l) j = nth_error l j.
+Proof. induction l as [|x l IH]; intros [|i] [|j] H; simpl; try reflexivity; [contradiction | apply IH; lia]. Qed.
+
+Lemma list_ext_nth_error {A} : forall l l' : list A, List.length l = List.length l' ->
+  (forall j, j < List.length l -> nth_error l j = nth_error l' j) -> l = l'.
+Proof.
+  induction l as [|x l IH]; intros [|y l'] HL H; simpl in HL; try discriminate; [reflexivity|].
+  pose proof (H 0 ltac:(simpl; lia)) as H0. simpl in H0. inversion H0; subst. f_equal.
+  apply IH; [lia|]. intros j Hj. apply (H (S j)). simpl. lia.
+Qed.
+
+Section ByPosition.
+  Variable A : Type.
+  Variable results : list (option A).
+  Let stepP := fun (l : list (option A)) i => match nth_error results i with Some r => upd i r l | None => l end.
+
+  Lemma by_position_inv : forall sched acc, List.length acc = List.length results ->
+    List.length (fold_left stepP sched acc) = List.length results /\
+    forall j, j < List.length results -> (In j sched \/ nth_error acc j = nth_error results j) ->
+              nth_error (fold_left stepP sched acc) j = nth_error results j.
+  Proof.
+    induction sched as [|i t IH]; intros acc HL; simpl.
+    - split; [exact HL|]. intros j _ [[]|H]. exact H.
+    - assert (HL1 : List.length (stepP acc i) = List.length results).
+      { unfold stepP. destruct (nth_error results i); [rewrite upd_length|]; exact HL. }
+      destruct (IH (stepP acc i) HL1) as [L N]. split; [exact L|].
+      intros j Hj H. apply N; [exact Hj|].
+      destruct (Nat.eq_dec i j) as [->|Ne].
+      + right. unfold stepP. destruct (nth_error results j) as [r|] eqn:E.
+        * apply upd_nth_same. rewrite HL. exact Hj.
+        * apply nth_error_None in E. lia.
+      + destruct H as [[H|H]|H]; [contradiction | left; exact H | right].
+        unfold stepP. destruct (nth_error results i); [rewrite upd_nth_other by exact Ne|]; exact H.
+  Qed.
+
+  (* every completion order of the goroutines gives the repository order *)
+  Theorem by_position_schedule sched : (forall j, j < List.length results -> In j sched) ->
+    by_position results sched = results.
+  Proof.
+    intro Hall. unfold by_position.
+    destruct (by_position_inv sched (repeat None (List.length results)) (repeat_length _ _)) as [L N].
+    apply list_ext_nth_error; [exact L|]. intros j Hj.
+    assert (Hj' : j < List.length results) by (rewrite <- L; exact Hj).
+    apply N; [exact Hj'|]. left. apply Hall. exact Hj'.
+  Qed.
+End ByPosition.
+
+Corollary indexes_by_position_schedule {A} (results : list (option A)) sched sched' :
+  Permutation sched (seq 0 (List.length results)) -> Permutation sched' (seq 0 (List.length results)) ->
+  indexes_by_position results sched = indexes_by_position results sched' /\
+  indexes_by_position results sched = drop_holes results.
+Proof.
+  intros P P'. unfold indexes_by_position.
+  assert (G : forall s, Permutation s (seq 0 (List.length results)) -> by_position results s = results).
+  { intros s Ps. apply by_position_schedule. intros j Hj. eapply Permutation_in; [apply Permutation_sym; exact Ps|]. apply in_seq. lia. }
+  rewrite (G _ P), (G _ P'). split; reflexivity.
+Qed.
+
+Lemma indexes_by_arrival_depends_on_order :
+  exists (results : list (option string)) sched sched', Permutation sched sched' /\
+    indexes_by_arrival results sched <> indexes_by_arrival results sched'.
+Proof.
+  exists [Some "primary"; Some "mirror"], [0; 1], [1; 0]. split; [apply perm_swap|]. vm_compute. discriminate.
+Qed.
